@@ -74,6 +74,9 @@ func (p *propC01) Prepare(seed uint64, tier string) int {
 		r := NewRng(seed, "C01/pool", i)
 		ft := supportedFileTypes[r.Intn(len(supportedFileTypes))]
 		rs := genStream(r, StreamOpts{FT: ft, NData: r.Range(1, 25), Arch: 2, Unknown: true, Dev: true, Compressed: true, Unhosted: true, Narrow: true, Accum: true, Hdr14: r.Bool(), BigArr: true})
+		if i%10 == 5 {
+			withJumbo(r, rs)
+		}
 		p.pool = append(p.pool, poolEntry{Name: fmt.Sprintf("model%d", i), Bytes: rs.Build()})
 	}
 	p.nMut = 40000
